@@ -772,6 +772,8 @@ class RefJs:
             self.emit(f"var {dd}={{{','.join(parts)}}};")
             self.emit(f"if({nm}&&SUBS[{nm}])SUBS[{nm}]({dd},{out});")
         elif k == "slot":
+            # (the `slot:` value references a <slot> element carries are in scope for its OWN name and passed values: slot forwarding)
+            scopes = scopes + [((v[1] if v is not None else nm[5:]), eg.js_str("SV:" + camel(nm[5:]))) for (nm, v) in n[2] if nm.startswith("slot:")]
             nmv = "''" if n[1] is None else f"TOSTR({self.val(n[1], scopes, D)})"
             e = self.fresh("e")
             self.emit(f"var {e}={{slot:{nmv},calls:[]}};")
